@@ -147,7 +147,7 @@ PROPS["C14"] = dict(streams=["C14"], kernel_cases=0, timeout=600,
 PROPS["C13"] = dict(streams=["C13"], kernel_cases=0, timeout=600,
     rule="random circles (any centre, radii over all scales, 0..4096 steps) against probe points placed inside, outside, at 1e-4 relative of the radius and in the sliver between the circle and its polygon approximation, and against second circles at controlled centre distances (around the sum and the difference of the radii), different step counts; per case 10 flags: Contains/Intersects of Point and SimplePoint = (distance <= radius) outside the tolerance band, operand order, monotone in the radius, circle-contains-circle only if d + rB <= rA, circle-intersects-circle iff d <= rA + rB, JSON round trip to an identical Circle, polygon approximation closed / centred / rect contains centre; + a sample of point decisions certified by interval arithmetic against the model. non-trivial: all; distinct = distinct case lines",
     trusted_base=GEO_TB, assumptions=["negative, NaN, infinite and larger-than-half-circumference radii are used for serialisation and totality only"],
-    partial=["the Circle point test is proved equivalent to 'distance <= radius' over the reals (circle_contains_point_spec); Circle.Contains(Circle) is proved sound (every point of B is within A) and circles sharing a point are proved to have centre distance <= sum of radii, both through the triangle inequality of the great-circle distance (SphereTriangle.v); the converse of the intersects clause, float64 rounding and the polygon approximation are checked by flags"])
+    partial=["the Circle point test is proved equivalent to 'distance <= radius' over the reals (circle_contains_point_spec); Circle.Contains(Circle) is proved sound (every point of B is within A; triangle inequality of the great-circle distance, SphereTriangle.v) and complete while centre distance + radius of B stays within half the circumference; Circle.Intersects(Circle) is proved exact as point sets: the discs share a location iff centre distance <= sum of radii (SphereMeet.v: the common location is a centre or the point of the great arc at distance rA from A, obtained as a unit vector and turned back into latitude / longitude); float64 rounding and the polygon approximation are checked by flags"])
 
 PROPS["C16"] = dict(streams=["C16"], kernel_cases=0, timeout=900, race=True,
     rule="(translator) every store-like instruction (Store, MapUpdate, append, copy, delete, Send, go, sync calls) of every function reachable from the exported query / serialisation API of the three packages and of the tidwall dependencies they call, classified by the provenance of the written memory; (race detector) a pool of ~70 objects (parsed documents of all kinds under 5 option sets, long indexed rings, a 100-child collection, circles, constructor-built objects) queried by 8 goroutines x 6 rounds x 400 random calls (thorough: 16 x 20 x 3000) of 10 method groups (contains, within, intersects, JSON, rect/center/empty/valid/numpoints, distance, foreach, search/appendjson, string/members, spatial) with every result compared to the result recorded when run alone, under go build -race. non-trivial: all; distinct = distinct (round, worker) lines",
